@@ -618,6 +618,114 @@ def rule_r6(chk, p, t):
     r.guard(m.qualname, one)
 
 
+def rule_r7(chk, p, t):
+    from rsa.inplace import InPlace, aliases_of, view_root, _MUT_METHODS
+
+    r = chk.rule(
+        "C03.R7",
+        "the columns of a batch are integrated independently",
+        6,
+        "propagating K states at once gives what K separate calls give only if nothing that is computed once per "
+        "derivative evaluation (rotation matrix, third-body and Sun positions, the solver's state vector itself and its "
+        "per-column views, attributes of the dynamics object) is changed while the columns are processed: inside the "
+        "column loop of every Celestial._differentialEquation no such value is the target of an in-place operation "
+        "(`x -= y`, `x[i] = v`, a mutating method, `out=`), directly or through a resolved callee that modifies the "
+        "corresponding parameter in place (parameter-mutation summaries of rsa/inplace.py, aliases and views followed, "
+        "depth 3); the only array written in the loop is the derivative being returned.  A copy (`array(x)`, `x.copy()`, "
+        "any arithmetic) hands the callee its own object",
+        "equality of batched and separate propagation within tolerance (integrator step control is per batch)",
+    )
+    cel = p.cls(CEL)
+    impls = [m for m in p.overriders(cel, "_differentialEquation") if m.cls is not cel]
+    if len(impls) < 2:
+        r.error(CEL, f"only {len(impls)} derivative implementations found (2 confirmed by hand)")
+    ip = InPlace(p, t)
+    for m in impls:
+
+        def one(m=m):
+            body = m.node.body
+            loops = [(i, n) for i, n in enumerate(body) if isinstance(n, ast.For) and isinstance(n.iter, ast.Call) and call_name(n.iter) == "range"]
+            require(len(loops) == 1, f"expected one top-level column loop, found {len(loops)}", m.node)
+            idx, loop = loops[0]
+            rets = [n for n in walk_no_nested(m.node) if isinstance(n, ast.Return) and n.value is not None]
+            out_names = {view_root(rt.value) for rt in rets}
+            shared = set(m.params) - {"self"}
+            for st in body[:idx]:
+                for n in ast.walk(st):
+                    if isinstance(n, ast.Name) and isinstance(n.ctx, ast.Store):
+                        shared.add(n.id)
+            al = aliases_of(m.node, shared)
+            # elements of a shared container bound by a loop / comprehension inside the column loop
+            for n in ast.walk(loop):
+                if isinstance(n, (ast.comprehension, ast.For)) and n is not loop:
+                    it = n.iter
+                    if isinstance(it, ast.Call) and isinstance(it.func, ast.Attribute) and it.func.attr in ("items", "values", "keys"):
+                        it = it.func.value
+                    root = view_root(it)
+                    if root is not None and (al.get(root) in shared or root == "self"):
+                        for el in ast.walk(n.target):
+                            if isinstance(el, ast.Name):
+                                al[el.id] = al.get(root, root)
+
+            def shared_root(e):
+                if e is None:
+                    return None
+                if isinstance(e, ast.Attribute) and isinstance(e.value, ast.Name) and e.value.id == "self":
+                    return unparse(e)
+                root = view_root(e)
+                if root is None:
+                    return None
+                if root == "self":
+                    return unparse(e)
+                a = al.get(root)
+                return a if a in shared else None
+
+            n_calls = 0
+            for n in ast.walk(loop):
+                if isinstance(n, (ast.FunctionDef, ast.Lambda)):
+                    continue
+                where = m.loc(n) if hasattr(n, "lineno") else m.loc()
+                if isinstance(n, ast.AugAssign):
+                    root = shared_root(n.target)
+                    if root is not None and root not in out_names:
+                        r.violation(f"{m.qualname}:{unparse(n.target)[:30]}", f"batch-carried:{m.cls.name}:{root}", f"`{unparse(n)[:70]}` inside the column loop changes `{root}` in place: it is computed once per evaluation (or is the solver's own state), so column jj sees what columns 0..jj-1 left behind - a batch no longer equals separate calls", where)
+                elif isinstance(n, ast.Assign):
+                    for tg in n.targets:
+                        if isinstance(tg, ast.Subscript):
+                            root = shared_root(tg)
+                            if root is not None and root not in out_names:
+                                r.violation(f"{m.qualname}:{unparse(tg)[:30]}", f"batch-carried:{m.cls.name}:{root}", f"`{unparse(tg)[:50]} = ...` inside the column loop writes into `{root}`, which every column reads", where)
+                elif isinstance(n, ast.Call):
+                    if isinstance(n.func, ast.Attribute) and n.func.attr in _MUT_METHODS:
+                        root = shared_root(n.func.value)
+                        if root is not None and root not in out_names:
+                            r.violation(f"{m.qualname}:{unparse(n)[:30]}", f"batch-carried:{m.cls.name}:{root}", f"`{unparse(n)[:60]}` inside the column loop modifies `{root}`, which every column reads", where)
+                    for k in n.keywords:
+                        if k.arg == "out":
+                            root = shared_root(k.value)
+                            if root is not None and root not in out_names:
+                                r.violation(f"{m.qualname}:{unparse(n)[:30]}", f"batch-carried:{m.cls.name}:{root}", f"`{unparse(n)[:60]}` writes its result into `{root}`, which every column reads", where)
+                    for callee, binding in ip.bound_callees(n, m):
+                        mp = ip.mutated_params(callee)
+                        n_calls += 1
+                        bad = []
+                        for par, (what, _) in mp.items():
+                            root = shared_root(binding.get(par))
+                            if root is not None:
+                                bad.append((par, what, root))
+                        cons = f"{m.qualname}:{callee.name}({', '.join(unparse(a)[:18] for a in n.args)[:50]})"
+                        if bad:
+                            par, what, root = bad[0]
+                            r.violation(cons, f"batch-carried:{m.cls.name}:{callee.name}:{par}", f"`{unparse(binding[par])[:40]}` (a reference to `{root}`, computed once for all columns) is handed to {callee.name} as `{par}`, and {callee.name} modifies that parameter in place: {what}. Column jj of a batch sees the value left behind by columns 0..jj-1, so propagating several states at once no longer gives what separate calls give", where)
+                        else:
+                            r.ok(cons, f"{callee.name} modifies {sorted(mp) if mp else 'none'} of its parameters in place; no shared value is bound to one", where)
+            if n_calls == 0 and m.cls.name != "TwoBody":
+                r.error(m.qualname, "no resolved call inside the column loop")
+            r.ok(f"{m.qualname}:loop", f"no in-place operation on {len(shared)} per-evaluation values inside the column loop (output: {sorted(x for x in out_names if x)})", m.loc(loop))
+
+        r.guard(m.qualname, one)
+
+
 def run(chk, p, t):
     chk.explanation = (
         "Static decision of a deliberately narrow set of structural necessary conditions of C03: (R1) the strided "
@@ -628,7 +736,7 @@ def run(chk, p, t):
         "tolerance, Kepler exactness, energy / momentum conservation (integrator numerics)."
     )
     chk.assumptions += ["numpy ravel / reshape are row-major: element (i, k) of a (6, K) array is at index i K + k"]
-    for fn in (rule_r1, rule_r2, rule_r3, rule_r4, rule_r5, rule_r6):
+    for fn in (rule_r1, rule_r2, rule_r3, rule_r4, rule_r5, rule_r6, rule_r7):
         rid = "C03.R" + fn.__name__[-1]
         if not chk.wants(rid):
             continue
